@@ -155,13 +155,22 @@ def ranges_copy(lw, node, args):
     return 'QStrListC_append_all(%s, %s)' % (lw.addr(dst), lw.addr(src))
 
 
+def optional_vocabulary(calls, opts):
+    """std::optional<T> observers for every modelled optional: has_value(), operator bool, operator*, operator->, value()"""
+    for o in opts:
+        calls.setdefault('%s::has_value/0' % o, ('expr', '({v0}).has'))
+        calls.setdefault('%s::operator bool/0' % o, ('expr', '({v0}).has'))
+        calls.setdefault('op*:%s' % o, ('expr', '({v0}).v'))
+        calls.setdefault('op->:%s' % o, ('expr', '&({v0}).v'))
+
+
 def profile_c(info):
     types = {
         'QString': 'sid', 'QStringView': 'sid', 'QByteArray': 'bid', 'QUuid': 'quuid',
         'QList<QString>': 'QStrListC', 'QStringList': 'QStrListC', 'std::vector<QString>': 'QStrVecC',
         'SaslMechanism': 'SaslMechanism', 'std::optional<SaslMechanism>': 'OptSaslMechanism',
         'std::tuple<std::optional<SaslMechanism>,QStringList>': 'ChooseResultC',
-        'QXmppConfiguration': 'QXmppConfiguration', 'Credentials': 'Credentials',
+        'QXmppConfiguration': 'QXmppConfiguration', 'Credentials': 'Credentials', 'std::optional<HtToken>': 'OptHtTokenC', 'HtToken': 'HtTokenC',
         'QXmppLoggable': 'QObjectC', 'QObject': 'QObjectC', 'SendDataInterface': 'SendDataInterface',
         'QXmppSaslClient': 'QXmppSaslClient', 'std::unique_ptr<QXmppSaslClient>': 'QXmppSaslClient*', 'pointer': 'QXmppSaslClient*',
         'std::optional<QByteArray>': 'OptBid',
@@ -230,12 +239,13 @@ def profile_c(info):
         'fnraw:makeReadyTask': ready_task, 'memraw:SendDataInterface::sendData': send_data, 'qpromise::task/0': promise_task,
     }
     del calls['op=:scalar']
+    optional_vocabulary(calls, ['OptSaslMechanism', 'OptBid', 'OptAuthError', 'OptFastFeature', 'OptUserAgentCfg', 'OptState', 'OptPromise', 'OptHtTokenC', 'OptUserAgent', 'OptFastRequest'])
     types = dict(types)
     for k, v in list(types.items()):
-        types[re.sub(r'(?<![:\w])(Sasl2::|SaslManager::|Sasl2Manager::|FastFeature|FastRequest|InitSaslAuthResult|SaslMechanism|Credentials)', L.PRIV + r'\1', k)] = v
+        types[re.sub(r'(?<![:\w])(Sasl2::|SaslManager::|Sasl2Manager::|FastFeature|FastRequest|InitSaslAuthResult|SaslMechanism|Credentials|HtToken)', L.PRIV + r'\1', k)] = v
     p = Profile(types=types,
                 class_types={'QStrListC', 'QStrVecC', 'SaslMechanism', 'OptSaslMechanism', 'ChooseResultC', 'QXmppConfiguration', 'Credentials', 'QObjectC', 'SendDataInterface',
-                             'QXmppSaslClient', 'OptBid', 'AuthenticationError', 'AuthError', 'OptAuthError', 'InitSaslAuthResult', 'OptUserAgentCfg', 'QXmppSasl2UserAgentC',
+                             'QXmppSaslClient', 'OptBid', 'AuthenticationError', 'AuthError', 'OptAuthError', 'InitSaslAuthResult', 'OptHtTokenC', 'HtTokenC', 'OptUserAgentCfg', 'QXmppSasl2UserAgentC',
                              'Sasl2Authenticate', 'Sasl2StreamFeature', 'OptFastFeature', 'FastFeatureC', 'OptFastRequest', 'FastRequestC', 'OptUserAgent', 'UserAgentC',
                              'Sasl2Manager', 'SaslManager', 'OptState', 'StateC', 'OptPromise'},
                 calls=calls, globals_ok={'nullopt', 'copy'}, literal_ids=StringTable(), string_types={'sid'},
